@@ -417,7 +417,8 @@ func (check) Run(seed int64, tier string, idx int, verbose bool) harness.Result 
 	if err := shared.Unpack(&cap, o...); err == nil {
 		captured = cap.Cap
 	}
-	probe := &srcProbe{}
+	probe := &srcProbe{seed: harness.Mix(seed, "C11/nullslots", idx)}
+	nullSlotMonitors(res, shared, probe)
 	res.Ev("empty_containers_in_shared_config", int64(emptyContainers(shared)))
 	list := ops(shared, captured, o, probe)
 	shared2, mixed := mixedOps()
@@ -703,12 +704,20 @@ func (check) Run(seed int64, tier string, idx int, verbose bool) harness.Result 
 // liveDstViolation reports what the destination ops noted about their source
 // since the last call (and counts their writes).
 func liveDstViolation(res *harness.R, probe *srcProbe, desc string) bool {
+	probe.mu.Lock()
+	sig, nm := probe.sig, probe.nullMerges
+	probe.sig, probe.nullMerges = "", 0
+	probe.mu.Unlock()
 	note, writes := probe.take()
 	res.Ev("writes_into_destinations_after_a_merge", writes)
+	res.Ev("merges_into_destinations_with_null_slots_then_writes", nm)
 	if note == "" {
 		return false
 	}
-	res.Violate(sigLiveDst, "%s; config %s", note, desc)
+	if sig == "" {
+		sig = sigLiveDst
+	}
+	res.Violate(sig, "%s; config %s", note, desc)
 	return true
 }
 
